@@ -27,7 +27,7 @@ RULE = ("lists of 0..5 logged cold/hot sources with generated timelines and term
         "dispose) is replayed through the Lean machine, outputs (timed) and subscribe/unsubscribe effects compared per event in order; "
         "non-trivial = at least two sources were subscribed or a source terminated")
 ASSUMPTIONS = ["single-threaded / virtual-time execution: one run is one list of tagged events",
-               "sources do not notify synchronously inside subscribe; factories given to on_error_resume_next do not raise (C09)",
+               "sources do not notify synchronously inside subscribe",
                "do_while is compared with its two nested scheduler hops collapsed into one (no dispose is placed between them)"]
 TRUSTED_EXTRA = ["the logging sources / tap of harness/props/comb_common.py as measuring instruments"]
 LEVEL_TEXT = ("Lean theorems over the trace machine of concat_with_iterable_/catch_with_iterable_/on_error_resume_next_ (SerialDisposables, is_disposed, the "
@@ -59,7 +59,7 @@ def kind_of(op):
 
 
 def cases(rng, tier):
-    n = fw.tier_scale(tier, 1800, 20000)
+    n = fw.tier_scale(tier, 3000, 30000)
     for i in range(n):
         op = OPS[i % len(OPS)]
         kind = kind_of(op)
@@ -83,6 +83,10 @@ def cases(rng, tier):
                 c["handler_raises"] = rng.random() < 0.3
             if op == "oern":
                 c["factory"] = [rng.random() < 0.4 for _ in range(k)]
+                # a source factory that raises (delivered as on_error since the C09 fix)
+                c["factory_raises_at"] = rng.choice([None, None, None] + list(range(k))) if k else None
+                if c["factory_raises_at"] is not None:
+                    c["factory"][c["factory_raises_at"]] = True
         else:
             nsubs = 6
             per = []
@@ -103,6 +107,11 @@ def cases(rng, tier):
                     c["dispose"] = None
         if c["cut"] is None and rng.random() < 0.1:
             c["cut"] = rng.choice([1, 2, 3])
+        # aim a dispose exactly between the first source's terminal and the operator's scheduled action
+        if op in ("concat", "catch", "oern", "ops_oern", "ops_concat", "repeat", "retry") and c["dispose"] is not None and rng.random() < 0.5:
+            first = c["srcs"][0] if "srcs" in c and c["srcs"] else c.get("src")
+            if first is not None and first["mode"] == "cold" and first["msgs"] and first["msgs"][-1][1] != "N":
+                c["dispose"] = [cc.SUBSCRIBE_AT + first["msgs"][-1][0], 2]
         yield c
 
 
@@ -126,7 +135,12 @@ def _run_impl(case):
         if op == "ops_catch_obs":
             return srcs[0].pipe(ops.catch(srcs[1]))
         if op == "oern":
+            def bad(e):
+                raise InjectedError("factory")
+
             args = [(lambda e, s=s: s) if f else s for s, f in zip(srcs, case["factory"])]
+            if case.get("factory_raises_at") is not None:
+                args[case["factory_raises_at"]] = bad
             return rx.on_error_resume_next(*args)
         if op == "ops_oern":
             return srcs[0].pipe(ops.on_error_resume_next(srcs[1]))
@@ -187,6 +201,8 @@ def _run_impl(case):
 def items_of(case):
     """what the j-th next(sources_) does, from the case alone"""
     op = case["op"]
+    if op == "oern" and case.get("factory_raises_at") is not None:
+        return ["src"] * case["factory_raises_at"] + [{"raise": "factory"}], "stop"
     if op in LIST_OPS and op not in ("for_in", "catch_handler", "start_with"):
         return ["src"] * len(case["srcs"]), "stop"
     if op == "start_with":
@@ -353,10 +369,11 @@ def bucket(case, out):
     yield "cut=" + str(case.get("cut") is not None)
     if "count" in case:
         yield f"count={case['count']}"
-    # dispose exactly between a terminal and the scheduled action
-    for i, e in enumerate(log):
-        if e[0] == "dispose" and any(f[0] == "tick" and f[1] == e[1] for f in log[i + 1:]):
-            yield "dispose_before_pending_tick"
+    # dispose exactly between a source's continuing terminal and the scheduled action it armed
+    evs = [e for e in log if e[0] in ("ev", "tick", "dispose")]
+    for i, e in enumerate(evs):
+        if e[0] == "dispose" and i > 0 and evs[i - 1][0] == "ev" and evs[i - 1][3] == e[1] and continues(kind_of(case["op"]), evs[i - 1][2]):
+            yield "dispose_between_terminal_and_action"
 
 
 def shrink(case):
